@@ -8,6 +8,7 @@ import warnings
 from typing import Any
 
 from .. import semfam, semfam2, semgen, semlean, semrun
+from . import c04_calls
 from ..common import hx, unhx
 from ..runner import Check
 from ..translate import constraints as tconstraints
@@ -1093,6 +1094,7 @@ def run(ck: Check) -> None:
     campaign_siblings_model(ck, 48 if quick else 480)
     campaign_inherit(ck, 24 if quick else 300)
     campaign_lattice(ck, 14 if quick else 150)
+    c04_calls.run(ck)  # unions of constrained-type calls behind get_optional_type (its search hook goes first)
     ck.search_hooks.append(search_broken_keyword)
     known_findings(ck)
 
@@ -1103,7 +1105,17 @@ def replay(ck: Check, path: str) -> int:
     camp = ck.campaign("replay")
     ck.findings = []
     if "doc" in inp:
-        oracle_doc(ck, camp, inp["doc"], inp.get("style", "v2"), inp.get("routing", "contype"))
+        muts = None
+        if "instance" in inp and (data.get("classification") or {}).get("oracle") == "invalid_accepted":
+            # the recorded instance first (a boundary instance of a family need not be among the generic mutations)
+            cl = data["classification"]
+            insts = semgen.valid_instances(inp["doc"])
+            muts = [semgen.Mutation(inp["instance"], cl.get("keyword", "type"), cl.get("location", "member"), inp.get("path") or [], {}, cl.get("cause", "none"), bool(cl.get("in_union")))]
+            for inst in insts[:3]:
+                muts += semgen.mutations(inp["doc"], inst)
+            if semgen.is_valid(inp["doc"], inp["instance"]):
+                muts = muts[1:]
+        oracle_doc(ck, camp, inp["doc"], inp.get("style", "v2"), inp.get("routing", "contype"), None, muts)
     for f in ck.failures:
         print("REPLAY-FAILS:", json.dumps(f.classification), f.observed[:300])
     if not ck.failures:
